@@ -445,4 +445,31 @@ theorem writeAt_spec (F : Faults) (w : W) (b base S : Bytes) (hg : w.Good) (hacc
       exact (List.prefix_append _ _).trans this
     exact ⟨ha.kind, ha.size, Or.inl ⟨hbase.trans ha.grow, hcont⟩, fun h => absurd h hf⟩
 
+theorem hdrBytes_ne_nil (h : Hdr) (ds : Nat) : hdrBytes h ds ≠ [] := by
+  unfold hdrBytes; split <;> simp
+
+theorem hdrBytes_length (h : Hdr) (ds : Nat) : (hdrBytes h ds).length = if h.size = 14 then 14 else 12 := by
+  unfold hdrBytes; split <;> simp [Wire.le16, le32]
+
+theorem updateFileHeader_spec (F : Faults) (e : Enc) (h : Hdr) (hdrDs : Nat) (base S : Bytes)
+    (hg : e.w.Good) (hacc : e.w.acc = base ++ S) (hbase : base <+: e.w.d.content)
+    (hn : (e.n : Int) - e.lastHdrPos = S.length) (hat : e.w.kind = .at → e.lastHdrPos = base.length) (hcrc : e.crc = 0)
+    (hdir : e.w.kind.direct = true) (hbS : (hdrBytes h e.dataSize).length ≤ S.length) (hne : hdrDs ≠ e.dataSize) :
+    Rewrote base S (hdrBytes h e.dataSize) e.w (updateFileHeader F e h hdrDs).1.w (updateFileHeader F e h hdrDs).2.2 ∧
+    (e.w.Clean → (updateFileHeader F e h hdrDs).2.2 = true → (updateFileHeader F e h hdrDs).1.w.Clean) ∧
+    (F = noFault → e.w.Clean → (updateFileHeader F e h hdrDs).2.2 = true) ∧
+    (updateFileHeader F e h hdrDs).1.n = e.n ∧ (updateFileHeader F e h hdrDs).2.1 = e.dataSize := by
+  unfold updateFileHeader
+  rw [if_neg hne, hcrc, hdrBytesFrom_zero]
+  by_cases hsk : e.w.kind.seeker = true
+  · simp only [hsk, if_true, hn]
+    obtain ⟨r1, r2⟩ := rewriteSeek_spec F e.w (hdrBytes h e.dataSize) base S hg hacc hbase (hdrBytes_ne_nil _ _) hbS
+    exact ⟨r1, rewriteSeek_clean F e.w _ _, r2, trivial, trivial⟩
+  · have hk : e.w.kind = .at := by
+      cases hkk : e.w.kind <;> simp [hkk, Kind.seeker, Kind.direct] at hsk hdir ⊢
+    simp only [hk, Kind.seeker, Bool.false_eq_true, if_false, if_true, hat hk]
+    refine ⟨?_, writeAt_clean F e.w _ _, writeAt_live F e.w _ _, trivial, trivial⟩
+    have := writeAt_spec F e.w (hdrBytes h e.dataSize) base S hg hacc hbase hbS
+    exact this
+
 end Fit.Writer
